@@ -9,12 +9,15 @@ use std::sync::Mutex;
 
 static LOG: Mutex<Vec<(String, i64)>> = Mutex::new(Vec::new()); // (path, stage) ; stage -1 = at_sim_end
 
+static SHUTDOWN_AT: Mutex<Option<(String, usize)>> = Mutex::new(None);
 static PANIC_AT: Mutex<Option<(String, usize)>> = Mutex::new(None); // a module that panics in one of its start-up stages
 
 struct Rec { path: String, stages: usize }
 impl Module for Rec {
     fn at_sim_start(&mut self, stage: usize) {
         LOG.lock().unwrap().push((self.path.clone(), stage as i64));
+        // a module that shuts itself down (no restart) in its last start-up stage is inactive at the end and must still be torn down
+        if SHUTDOWN_AT.lock().unwrap().clone() == Some((self.path.clone(), stage)) { current().shutdown(); }
         let p = PANIC_AT.lock().unwrap().clone();
         if p == Some((self.path.clone(), stage)) { panic!("module fault injected by tree_driver"); }
     }
@@ -82,6 +85,8 @@ fn main() {
         let faulty: Option<usize> = if rnd() % 5 == 0 { Some((rnd() % nodes.len() as u64) as usize) } else { None };
         *PANIC_AT.lock().unwrap() = faulty.map(|f| (nodes[f].path.clone(), (rnd() % nodes[f].stages as u64) as usize));
         let fpath: Option<String> = faulty.map(|f| nodes[f].path.clone());
+        let quitter: Option<usize> = if faulty.is_none() && rnd() % 6 == 0 { Some((rnd() % nodes.len() as u64) as usize) } else { None };
+        *SHUTDOWN_AT.lock().unwrap() = quitter.map(|q| (nodes[q].path.clone(), nodes[q].stages - 1));
         let mut sim = Sim::new(());
         for &i in order.iter() { sim.node(nodes[i].path.as_str(), Rec { path: nodes[i].path.clone(), stages: nodes[i].stages }); }
         let res = std::panic::catch_unwind(std::panic::AssertUnwindSafe(move || Builder::seeded(1).quiet().build(sim.freeze()).run()));
@@ -94,6 +99,7 @@ fn main() {
         let ends: Vec<String> = log.iter().filter(|e| e.1 < 0).map(|e| e.0.clone()).collect();
         let mut creation: Vec<String> = order.iter().map(|&i| format!("{}({})", nodes[i].path, nodes[i].stages)).collect();
         if let Some(p) = PANIC_AT.lock().unwrap().clone() { creation.push(format!("PANICS: {} in stage {}", p.0, p.1)); }
+        if let Some(p) = SHUTDOWN_AT.lock().unwrap().clone() { creation.push(format!("SHUTS DOWN (no restart): {} in stage {}", p.0, p.1)); }
         let mut bad: Option<(&str, String, String)> = None;
         if res.is_err() { bad = Some(("run-panicked", "run() returns".into(), "panic".into())); }
         else if starts != expected { bad = Some(("start-up-order", format!("{:?}", expected), format!("{:?}", starts))); }
